@@ -334,6 +334,17 @@ public:
     copyNamespaceAliases(const NamespacesHandler&   parentNamespacesHandler);
 
     /**
+     * Copy the aliases from the given NamespacesHandler, replacing any
+     * alias for the same stylesheet namespace URI.  Used to make the
+     * aliases of an importing stylesheet (higher import precedence)
+     * effective in the stylesheets it imports.
+     *
+     * @param theSource The handler of the importing stylesheet.
+     */
+    void
+    overrideNamespaceAliases(const NamespacesHandler&   theSource);
+
+    /**
      * Output the result tree namespace declarations.
      *
      * @param theExecutionContext The current execution context.
